@@ -1,6 +1,6 @@
 (* Impl/Access.v — remaining accessors: the outputs iterator, the redb
    (database) encodings and the conversions to rust-bitcoin shaped values. *)
-From BS Require Export Impl.Visit.
+From BS Require Export Impl.Visit Base.Sha256.
 Open Scope N_scope.
 Local Open Scope out_scope.
 
@@ -71,3 +71,50 @@ Definition to_rb_outpoint (x : outpoint) : out (list byte * N) :=
   Ok (arr, v).
 Definition to_rb_txout (x : txout) : out (N * list byte) :=
   s <- txout_script_pubkey x ;; Ok (to_value x, bytes s).
+
+(* ---- hashing accessors (src/bsl/transaction.rs txid / txid_sha2, src/bsl/block_header.rs block_hash /
+   block_hash_sha2, src/bsl/block.rs).  SHA-256 is the executable function of Base/Sha256.v; the two
+   hashing crates are modelled as its streaming engine (bitcoin_hashes: engine, input x3, from_engine =
+   hash of the first digest; sha2: new, update x3, finalize, digest of that). ---- *)
+Definition tx_txid (t : transaction) : out (list byte) :=
+  '(a, b, c) <- tx_txid_preimage t ;;
+  Ok (sha_finish_d (sha_update (sha_update (sha_update sha_init (bytes a)) (bytes b)) (bytes c))).
+Definition tx_txid_sha2 (t : transaction) : out (list byte) :=
+  '(a, b, c) <- tx_txid_preimage t ;;
+  Ok (sha256 (sha_finish (sha_update (sha_update (sha_update sha_init (bytes a)) (bytes b)) (bytes c)))).
+Definition header_block_hash (h : header) : list byte :=
+  sha_finish_d (sha_update sha_init (bytes (h_slice h))).
+Definition header_block_hash_sha2 (h : header) : list byte := sha256 (sha256 (bytes (h_slice h))).
+Definition block_block_hash (b : block) : list byte := header_block_hash (b_header b).
+Definition block_block_hash_sha2 (b : block) : list byte := header_block_hash_sha2 (b_header b).
+
+(* ---- bsl::FindTransaction (src/bsl/block.rs, mod visitor): a Visitor whose visit_transaction computes
+   tx.txid_sha2() and answers Break when it equals the wanted id.  In the model a visitor is a break oracle
+   over callbacks; the transaction callback carries the three preimage windows, read here from the
+   top-level input [inp] (absolute offsets, the input starts at offset 0). ---- *)
+Definition wbytes (inp : list byte) (w : window) : list byte :=
+  firstn (N.to_nat (snd w)) (skipn (N.to_nat (fst w)) inp).
+
+Fixpoint bytes_eqb (a b : list byte) : bool :=
+  match a, b with
+  | [], [] => true
+  | x :: a', y :: b' => (b2n x =? b2n y) && bytes_eqb a' b'
+  | _, _ => false
+  end.
+
+Definition find_pred (inp id : list byte) (e : event) : bool :=
+  match e with
+  | ETransaction _ _ _ a b c _ => bytes_eqb (sha256d (wbytes inp a ++ wbytes inp b ++ wbytes inp c)) id
+  | _ => false
+  end.
+
+Definition find_oracle (inp id : list byte) : oracle :=
+  fun _ e => match e with ETransaction _ _ _ _ _ _ _ => find_pred inp id e | _ => false end.
+
+(* Block::visit(inp, &mut FindTransaction::new(id)) followed by tx_found(): the result of the visit and the
+   bytes of the transaction the visitor stopped at (the crate decodes them with rust-bitcoin) *)
+Definition find_transaction (inp id : list byte) : out (presult block) * option (list byte) :=
+  match visit_block (find_oracle inp id) (top inp) [] with
+  | (Err VisitBreak, ETransaction w _ _ _ _ _ _ :: _) => (Err VisitBreak, Some (wbytes inp w))
+  | (r, _) => (r, None)
+  end.
